@@ -337,7 +337,7 @@ func (g *e2eGen) newPlan(id int) *callPlan {
 	tp := g.rc.Tape
 	p := &callPlan{id: id, tag: fmt.Sprintf("t%d", id), outcome: "ok"}
 	g.headers(p)
-	methods := []string{"basePing", "baseNote", "echoItem", "doVoid", "add", "blob", "bigString", "mixed", "URLFor", "shapes", "leafPing", "many", "choose", "color", "stamp", "headersSeen", "fire"}
+	methods := []string{"basePing", "baseNote", "echoItem", "doVoid", "add", "blob", "bigString", "mixed", "URLFor", "shapes", "shapes2", "leafPing", "many", "choose", "color", "stamp", "headersSeen", "fire"}
 	switch g.rc.Prop {
 	case "C16":
 		methods = []string{"basePing", "basePing", "basePing", "basePing", "echoItem", "doVoid", "fire", "baseNote", "leafPing"}
@@ -446,6 +446,55 @@ func (g *e2eGen) newPlan(id int) *callPlan {
 			p.ret = &simbase.BaseErr{Why: genString(tp, "val", 6), Code: int32(tp.Intn("val", 100))}
 		case "ex2":
 			p.ret = &simsvc.NotFound{Key: genString(tp, "val", 6)}
+		}
+	case "shapes2":
+		// struct shapes a generator meets rarely: lists and maps of structs (each element its own object), containers
+		// two deep, optional fields that are present but zero or empty, defaults of every kind that the sender
+		// overrides or leaves alone, a required field holding zero, a union with struct and container members,
+		// integer and float extremes, an exception that carries containers and a struct
+		mk := func() *simsvc.Deepish {
+			d := simsvc.NewDeepish()
+			for i, n := 0, tp.Intn("val", 4); i < n; i++ {
+				d.Leaves = append(d.Leaves, &simsvc.Leafy{Name: genString(tp, "val", 4), N: int32(i)})
+			}
+			d.ByName = map[string]*simsvc.Leafy{}
+			for i, n := 0, tp.Intn("val", 4); i < n; i++ {
+				d.ByName[fmt.Sprintf("n%d", i)] = &simsvc.Leafy{Name: genString(tp, "val", 4), N: int32(100 + i)}
+			}
+			d.Names = map[string]bool{"a": true, genString(tp, "val", 3): true}
+			d.Grid = [][]int32{{1, 2}, {}, {int32(tp.Intn("val", 9))}}
+			d.Nested = map[int32]map[string]float64{7: {"x": 1.5, "y": -2}, -1: {}}
+			if tp.Intn("val", 2) == 1 {
+				z := int32(0)
+				d.OptZero = &z
+			}
+			if tp.Intn("val", 2) == 1 {
+				d.OptLeaf = &simsvc.Leafy{}
+			}
+			switch tp.Intn("val", 3) {
+			case 1:
+				d.DefNum, d.DefBool, d.DefColor, d.DefList = 0, false, simsvc.Color_RED, []int32{}
+			case 2:
+				d.DefNum, d.DefList = -7, []int32{9}
+			}
+			d.ReqZero = []int64{0, 0, 5}[tp.Intn("val", 3)]
+			switch tp.Intn("val", 3) {
+			case 0:
+				d.Pick = &simsvc.Pick{Leaf: &simsvc.Leafy{Name: "u", N: 1}}
+			case 1:
+				d.Pick = &simsvc.Pick{Nums: []int32{3, 1, 2}}
+			default:
+				d.Pick = &simsvc.Pick{Kv: map[string]string{"k": genString(tp, "val", 3)}}
+			}
+			d.Big = []int64{0, 1<<63 - 1, -1 << 63, 1 << 53}[tp.Intn("val", 4)]
+			d.Inf = []float64{0, -0.5, 1e308, 5e-324, -1e-300}[tp.Intn("val", 5)] // (no infinities: apache thrift's JSON reader mis-reads "Infinity" when the token straddles its 4096-byte buffer - upstream, not frugal)
+			return d
+		}
+		p.args = []any{mk()}
+		p.outcome = outcome("ok", "ok", "ex1", "undeclared")
+		p.ret = mk()
+		if p.outcome == "ex1" {
+			p.ret = &simsvc.Loaded{Reasons: []string{"r1", genString(tp, "val", 4)}, Where: &simsvc.Leafy{Name: "w", N: 2}, Counts: map[string]int32{"c": 1, "d": 0}}
 		}
 	case "leafPing":
 		// the one method the outermost service declares itself (all others are inherited, same file or included)
@@ -752,7 +801,7 @@ func e2eCheck(rc *RunCtx, env *e2eEnv, plans []*callPlan, cli, prov, srv, added 
 		}
 		// ---- C03: handler ran once with equal arguments, caller saw the outcome
 		if p.handlerRuns != 1 {
-			rc.Violate("C03", "handler-invocation-count", key, fmt.Sprintf("%s: handler ran %d times", where, p.handlerRuns))
+			rc.Violate("C03", "handler-invocation-count", key, fmt.Sprintf("%s: handler ran %d times (caller got ret=%v err=%v)", where, p.handlerRuns, fmtArgs([]any{p.gotRet}), p.gotErr))
 			continue
 		}
 		wantArgs := p.args
